@@ -231,6 +231,19 @@ def run(ctx):
                 '  Emit = TRUE\n', workers=8, simulate=(6000 if ctx.quick else 120000) // 8, depth=16, timeout=3000)
     sim = [c for c in r.printed if isinstance(c, dict)]
     cases += sim
+    # directed: two and three narrow plain columns of fixed width 0..2 whose values (1-2 characters from the pool with the
+    # border characters: a lone '|', '+', '-') fill their cells completely or are cut, another column following
+    directed = []
+    for w0 in (0, 1, 2):
+        for w1 in (0, 1, 2):
+            for L0 in (0, 1, 2):
+                for L1 in (1, 2):
+                    cols2 = [{'kind': 'plain', 'brk': False, 'min': w0, 'max': w0}, {'kind': 'plain', 'brk': False, 'min': w1, 'max': w1}]
+                    directed.append({'cols': cols2, 'recs': [[L0, L1]] * 8, 'opts': {'limits': [99, 99], 'hdr': 0, 'ftr': 0}})
+                    directed.append({'cols': cols2 + [dict(cols2[0])], 'recs': [[L1, L0, L0 or 1]] * 8,
+                                     'opts': {'limits': [99, 99], 'hdr': 0, 'ftr': 0}})
+    cases += directed
+    ctx.extra['tables_directed_narrow_columns'] = len(directed)
     jcases, meta = [], []
     for c in cases:
         try:
